@@ -82,9 +82,6 @@ func TestP2PSyncFree(t *testing.T) {
 			one.Trace, one.RoundMap = "", ""
 			dv.Input = one
 			out.Diverge(*dv)
-			if dl != "" {
-				break
-			}
 			continue // a round the monitors reject is not handed to TLC as well
 		}
 		first := len(all) + 1
@@ -108,7 +105,21 @@ func TestP2PSyncFree(t *testing.T) {
 	}
 }
 
-func freeRound(w *world, in freeInput, seed int64, tr *tracer, stats map[string]int) (dv *vh.Divergence) {
+func freeRound(w *world, in freeInput, seed int64, tr *tracer, stats0 map[string]int) (dv *vh.Divergence) {
+	stats := map[string]int{}
+	var smu sync.Mutex
+	count := func(k string, n int) {
+		smu.Lock()
+		stats[k] += n
+		smu.Unlock()
+	}
+	defer func() {
+		smu.Lock()
+		for k, v := range stats {
+			stats0[k] += v
+		}
+		smu.Unlock()
+	}()
 	r := rand.New(rand.NewSource(seed))
 	s, err := newSUT(w, in.World.Start, in.World.Peers, seed, false)
 	if err != nil {
@@ -125,9 +136,9 @@ func freeRound(w *world, in freeInput, seed int64, tr *tracer, stats map[string]
 		}
 		amu.Lock()
 		plan := cs.peer.answer(cs.part, it.GetBlockNumber(), s.r, w)
-		stats["variant:"+cs.peer.class]++
+		count("variant:"+cs.peer.class, 1)
 		amu.Unlock()
-		tr.add(vh.J{"ev": "Open", "part": cs.part, "peer": cs.peer.name, "n": it.GetBlockNumber(),
+		tr.add(vh.J{"ev": "Req", "part": cs.part, "peer": cs.peer.name, "n": it.GetBlockNumber(),
 			"shape": fmt.Sprintf("%s/%d/%d", it.GetDirection(), it.GetLimit(), it.GetStep()), "variant": plan.variant})
 		wg.Add(1)
 		go func() { // the peer answers in its own time
@@ -147,6 +158,9 @@ func freeRound(w *world, in freeInput, seed int64, tr *tracer, stats map[string]
 			}
 		}()
 	}
+	// lin orders the events of the two sides: NewStream's context check + event, the consumer's
+	// receive + event, the cancellation + event are each atomic under it
+	var lin sync.Mutex
 	// juno draws the peer with the global math/rand, which cannot be seeded: the peerstore hands
 	// out ONE uniformly drawn peer instead (same distribution, reproducible rounds)
 	pr := rand.New(rand.NewSource(seed ^ 0x5eed))
@@ -159,10 +173,24 @@ func freeRound(w *world, in freeInput, seed int64, tr *tracer, stats map[string]
 		defer pmu.Unlock()
 		return []peer.ID{alive[pr.Intn(len(alive))]}
 	}
+	s.net.lin = &lin
+	s.net.onOpen = func(p *simPeer, part string) { tr.add(vh.J{"ev": "Open", "part": part, "peer": p.name}) }
+	doCancel := func() {
+		lin.Lock()
+		tr.add(vh.J{"ev": "Cancel"})
+		s.cancel()
+		lin.Unlock()
+	}
 	s.net.onDialFail = func(p *simPeer) { tr.add(vh.J{"ev": "DialFail", "peer": p.name}) }
 	// with an empty peerstore Service.Run spins without ever blocking (errNoPeers, `continue`):
 	// give the rest of the bubble a second of fake time per turn
-	s.net.onNoPeers = func() { tr.add(vh.J{"ev": "NoPeers"}); stats["no-peers-turns"]++; time.Sleep(time.Second) }
+	s.net.onNoPeers = func() {
+		lin.Lock()
+		tr.add(vh.J{"ev": "NoPeers"})
+		lin.Unlock()
+		count("no-peers-turns", 1)
+		time.Sleep(time.Second)
+	}
 	iters := 0
 	s.store.onHeight = func(found bool, h uint64) { iters++ }
 
@@ -192,7 +220,7 @@ func freeRound(w *world, in freeInput, seed int64, tr *tracer, stats map[string]
 		wg.Wait()
 		if dv == nil {
 			if gs := junoGoroutines("p2p/sync", "utils/pipeline"); len(gs) > 0 {
-				dv = &vh.Divergence{Key: "p2psync:leak:free:" + firstJunoFrame(gs[0]), What: fmt.Sprintf(
+				dv = &vh.Divergence{Key: "p2psync:leak:free-run:" + firstJunoFrame(gs[0]), What: fmt.Sprintf(
 					"%d goroutine(s) of p2p sync alive after cancellation, Run's return and every read deadline", len(gs)), Observed: shorten(gs, 12)}
 			} else if n := s.net.openStreams(); n > 0 {
 				dv = &vh.Divergence{Key: "p2psync:cancel:stream-not-closed", What: fmt.Sprintf("%d stream(s) were never closed by the requesting side", n)}
@@ -214,9 +242,11 @@ func freeRound(w *world, in freeInput, seed int64, tr *tracer, stats map[string]
 		// the consumer: take a body, store it
 		synctest.Wait()
 		var got bool
+		lin.Lock()
 		select {
 		case b, ok := <-s.svc.Listen():
 			if !ok {
+				lin.Unlock()
 				tr.add(vh.J{"ev": "Exit"})
 				if !cancelled {
 					return &vh.Divergence{Key: "p2psync:free:exit-without-cancel", What: "Service.Run returned although the context was not cancelled"}
@@ -227,13 +257,15 @@ func freeRound(w *world, in freeInput, seed int64, tr *tracer, stats map[string]
 			events++
 			if b.Err != nil {
 				tr.add(vh.J{"ev": "Recv", "k": "err"})
+				lin.Unlock()
 				tr.add(vh.J{"ev": "Drop"})
-				stats["err-bodies"]++
+				count("err-bodies", 1)
 				break
 			}
 			id := w.blockID(b.Block.Hash)
 			c, h := id[:1], int(b.Block.Number)
 			tr.add(vh.J{"ev": "Recv", "k": "good", "c": c, "h": h})
+			lin.Unlock()
 			if strings.HasPrefix(id, "?") {
 				return &vh.Divergence{Key: "p2psync:free:emitted-unknown-block", What: "a body that is no block of any peer's chain passed verification: " + id}
 			}
@@ -242,13 +274,13 @@ func freeRound(w *world, in freeInput, seed int64, tr *tracer, stats map[string]
 			err := s.node.BC.Store(b.Block, b.Commitments, b.StateUpdate, b.NewClasses)
 			tr.add(vh.J{"ev": "Store", "ok": err == nil, "c": c, "h": h})
 			if err != nil {
-				stats["store-rejected"]++
+				count("store-rejected", 1)
 				if d := faultkv.Diff(before, s.dump(), nil, 5); len(d) > 0 {
 					return &vh.Divergence{Key: "p2psync:free:rejected-store-changed-db", What: "a rejected body changed the database", Observed: d}
 				}
 				break
 			}
-			stats["store-accepted"]++
+			count("store-accepted", 1)
 			// monitors = the specification's invariants on the real chain
 			ids := s.storedIDs()
 			if len(ids) != heightBefore+1 || h != heightBefore {
@@ -276,6 +308,7 @@ func freeRound(w *world, in freeInput, seed int64, tr *tracer, stats map[string]
 				}
 			}
 		default:
+			lin.Unlock()
 		}
 		if cancelled {
 			if afterCancel++; afterCancel > 2000 {
@@ -288,17 +321,15 @@ func freeRound(w *world, in freeInput, seed int64, tr *tracer, stats map[string]
 			continue
 		}
 		if cancelAt >= 0 && events >= cancelAt {
-			tr.add(vh.J{"ev": "Cancel"})
-			s.cancel()
+			doCancel()
 			cancelled = true
-			stats["rounds-cancelled"]++
+			count("rounds-cancelled", 1)
 			continue
 		}
 		if len(s.storedIDs()) >= target() {
-			stats["rounds-converged"]++
-			stats["iterations"] += iters
-			tr.add(vh.J{"ev": "Cancel"})
-			s.cancel()
+			count("rounds-converged", 1)
+			count("iterations", iters)
+			doCancel()
 			cancelled = true
 			continue
 		}
@@ -310,9 +341,8 @@ func freeRound(w *world, in freeInput, seed int64, tr *tracer, stats map[string]
 						"after %d iterations with an honest peer in the peerstore the node is at height %d of %d", iters, len(s.storedIDs()), target()),
 						Observed: vh.J{"stored": s.storedIDs(), "alive": s.aliveNames(), "errors": tail(s.errTxt, 5)}}
 				}
-				stats["rounds-starved"]++ // every honest peer was removed after a failed dial: P2PSync_x_live_flaky
-				tr.add(vh.J{"ev": "Cancel"})
-				s.cancel()
+				count("rounds-starved", 1) // every honest peer was removed after a failed dial: P2PSync_x_live_flaky
+				doCancel()
 				cancelled = true
 				continue
 			}
